@@ -387,7 +387,7 @@ def run(a, res):
     def run_with(pf, cases, rhp="on"):
         conf = (f"cache_mem 32 MB\nmaximum_object_size_in_memory 1 MB\nrequest_header_max_size 16 KB\nreply_header_max_size 16 KB\n"
                 "dns_timeout 1 seconds\nconnect_timeout 2 seconds\nclient_request_buffer_max_size 256 KB\nrange_offset_limit 1 MB\n"
-                f"pipeline_prefetch {pf}\nrelaxed_header_parser {rhp}\n")
+                f"pipeline_prefetch {pf}\nrelaxed_header_parser {rhp}\n" + ("http_upgrade_request_protocols OTHER allow all\n" if os.environ.get("C09_UPGRADE", "1") == "1" else ""))
         lab = Lab(a, res, handler=handler, conf=conf, debug=os.environ.get("VERIF_SQUID_DEBUG", "ALL,1"))
         lab.crash_is_violation = True
         sq = lab.sq
